@@ -31,6 +31,8 @@ pub struct DeletionQuery {
     pub nodes: Vec<NodeDelete>,
     pub node_log: Vec<NodeDeletionEntry>,
     pub updated_nodes: Vec<Node>,
+    //modification date of each updated node before the update: that day of the daily log has to be invalidated too
+    pub updated_nodes_previous_mdate: Vec<i64>,
     pub edges: Vec<EdgeDelete>,
     pub edge_log: Vec<EdgeDeletionEntry>,
 }
@@ -46,6 +48,7 @@ impl DeletionQuery {
             nodes: Vec::new(),
             node_log: Vec::new(),
             updated_nodes: Vec::new(),
+            updated_nodes_previous_mdate: Vec::new(),
             edges: Vec::new(),
             edge_log: Vec::new(),
         };
@@ -89,6 +92,7 @@ impl DeletionQuery {
                         }
                     }
                     let mut node = *node;
+                    deletion_query.updated_nodes_previous_mdate.push(node.mdate);
                     node.mdate = date;
                     deletion_query.updated_nodes.push(node);
                 }
@@ -128,6 +132,17 @@ impl DeletionQuery {
         for log in &self.node_log {
             daily_log.set_need_update(log.room_id, &log.entity, log.mdate);
             daily_log.set_need_update(log.room_id, &log.entity, log.deletion_date);
+        }
+        //a node whose reference is deleted gets a new modification date: it leaves a day and enters another
+        for (node, previous_mdate) in self
+            .updated_nodes
+            .iter()
+            .zip(&self.updated_nodes_previous_mdate)
+        {
+            if let Some(room_id) = &node.room_id {
+                daily_log.set_need_update(*room_id, &node._entity, *previous_mdate);
+                daily_log.set_need_update(*room_id, &node._entity, node.mdate);
+            }
         }
     }
 }
